@@ -40,3 +40,18 @@ LEVEL["C09"] = ("Guard-fact dataflow over every union/leader-follower matcher: a
                 "query kind; boosts and global statistics reach the scorer (value-flow rules).")
 NOTE["C09"] = ("Not decided: the numeric formulas of the weighting models. Non-negativity of term scores is assumed by the "
                "shape ordering.")
+LEVEL["C05"] = ("Shape-algebra rules over every replace()/skip_to_quality(): the threshold handed to a child is the "
+                "parent's threshold minus max_quality of every other contributing child (or / boost); comparisons discard "
+                "only on bound < threshold; heap order key = result order key; the collector passes thresholds only under "
+                "quality support; plus the alignment (C01-R1/R2) and bound-dominance (C12-R1) rules. These are exactly "
+                "the facts the limited-search path relies on and that the tests (tiny single-block indexes) never reach.")
+NOTE["C05"] = ("Not decided: correctness of stored block statistics (C10/C12), float round-off, final() hooks. "
+               "Known findings: unaligned block skipping in Union/Intersection/AndMaybe.skip_to_quality (design flaw), "
+               "WrappingMatcher.replace ignoring the boost (pinned by test_quality::test_replacements). "
+               "CoordMatcher's transformed threshold is outside the algebra (noted, not armed).")
+LEVEL["C12"] = ("Symbolic shape comparison: for every composite matcher and every activity configuration the returned "
+                "max_quality/block_quality shape structurally dominates every score shape; every scorer's bounds are its "
+                "score formula at (max weight, min length), and a monotonicity abstract domain derives that the formula "
+                "is increasing in weight and decreasing in length before the scorer may claim quality support.")
+NOTE["C12"] = ("Assumes term scores >= 0 and positive model parameters. Not decided: tightness, float rounding, that stored "
+               "block statistics are true aggregates (partly C10-R4).")
